@@ -162,6 +162,27 @@ func c04Check(t interface{ Fatalf(string, ...any) }, c c04Case) int {
 		t.Fatalf("Decrypt on the other side: %v", err)
 	}
 	c.checkDecoded(t, "Decrypt", m2)
+	// a receiver value that held another frame before (shorter, equal or longer,
+	// by the case's own stream): what that frame left behind is not part of this one
+	{
+		ps := pbt.NewStream(c.RandSeed ^ 0x0ddba11)
+		prev := ps.Bytes(24 + 16*int(ps.Uint64()%160))
+		var reused crypto.EncryptedMessage
+		if err := reused.Decode(&bin.Buffer{Buf: prev}); err != nil {
+			t.Fatalf("EncryptedMessage.Decode(previous frame of %d bytes): %v", len(prev), err)
+		}
+		if err := reused.Decode(&bin.Buffer{Buf: append([]byte(nil), wire...)}); err != nil {
+			t.Fatalf("EncryptedMessage.Decode into a reused value: %v", err)
+		}
+		if len(reused.EncryptedData) != len(wire)-24 {
+			t.Fatalf("EncryptedMessage reused after a %d-byte frame holds %d bytes of encrypted data, the wire has %d", len(prev), len(reused.EncryptedData), len(wire)-24)
+		}
+		m4, err := dec.Decrypt(c.Key, &reused)
+		if err != nil {
+			t.Fatalf("Decrypt of a frame decoded into a reused EncryptedMessage (previous frame %d bytes, this one %d): %v", len(prev), len(wire), err)
+		}
+		c.checkDecoded(t, "Decrypt(reused receiver)", m4)
+	}
 
 	// the implementation decrypts what the reference produces, with a padding
 	// length chosen independently of the implementation's choice.
